@@ -175,6 +175,18 @@ struct GuardedSet {
     }
 };
 
+// an input buffer of exactly the given size: on the heap (ASan red zones), or - ro - on read-only pages ending flush
+// at a guard page, so that a write INTO the input is a fault as well as a read beyond it
+struct InBuf {
+    char *p = nullptr; size_t n = 0; std::unique_ptr<Guarded> g;
+    InBuf(const std::vector<uint8_t> &v, bool ro) : n(v.size()) {
+        if (ro) { g.reset(new Guarded); g->place(v.data(), v.size(), true, (int)((16 - v.size() % 16) % 16)); p = (char *)g->p; }
+        else { p = (char *)malloc(n ? n : 1); if (n) memcpy(p, v.data(), n); }
+    }
+    InBuf(const InBuf &) = delete;
+    ~InBuf() { if (!g) free(p); }
+};
+
 struct DecodeOut { int rc = 0; bool out_null = true; std::vector<uint8_t> out; uint64_t out_len = 0; int cleanup_rc = 0; };
 inline DecodeOut decode(int desc, FragSet &fs, uint64_t fraglen, int force) {
     DecodeOut d;
@@ -280,7 +292,9 @@ inline Config gen_config(int allowed = G_REAL, int ct_force = -1) {
         } else { g.k = (int)pick(1, 7); g.m = (int)pick(1, 8 - g.k); }
         g.hd = g.m;
         if (coin(1, 5)) g.hd = (int)pick(0, 40);      // hd is documented as "= m for Reed-Solomon" and ignored by these back ends
-        if (ref::is_isa(g.backend)) g.w = coin() ? 0 : 8;
+        if (ref::is_isa(g.backend)) {       // the adapters accept 8 <= w <= 62 (and 0 = default 8; 63 overflows their own k+m <= 2^w test and is refused); the word size only sets the alignment unit w/8
+            switch (weighted({3, 3, 2, 2})) { case 0: g.w = 0; break; case 1: g.w = 8; break; case 2: g.w = coin() ? 16 : 32; break; default: g.w = (int)pick(9, 62); }
+        }
         else if (g.backend == ref::B_NULL) { static const int ws[] = {0, 8, 16, 32}; g.w = ws[pick(0, 3)]; }
         else { static const int ws[] = {0, 8, 16, 32}; g.w = ws[pick(0, 3)]; }
     }
